@@ -300,7 +300,7 @@ def check(run):
     r3_compiler_reset(run, F)
     c03.r1_reset(run, F)
     # private items of different modules meet in one linked LLVM module: they stay apart only while they are private symbols
-    c03.r2_linkage(run, F)
+    c03.r2_linkage(run, F, linked_program=False)
     r6_key_offset(run, F)
     r7_struct_namespace(run, F)
     r8_exported_constant(run, F)
